@@ -79,7 +79,8 @@ def jdel(j, path):
     del j[path[-1]]
 
 
-JSON_OPS = ["delete", "null", "wrongtype", "badenum", "empty", "toolong", "forbidden", "badliteral", "badbase64", "unknowntype"]
+JSON_OPS = ["delete", "null", "wrongtype", "badenum", "empty", "toolong", "forbidden", "badliteral", "badbase64", "unknowntype", "hugeliteral"]
+HUGE = ["P" + "9" * 400 + "Y", "PT" + "9" * 400 + "S", "-P" + "9" * 400 + "D"]
 
 
 def damage_json(doc: dict, rng: random.Random) -> Optional[Tuple[str, Tuple]]:
@@ -111,6 +112,10 @@ def damage_json(doc: dict, rng: random.Random) -> Optional[Tuple[str, Tuple]]:
                 jset(doc, path, "12:99:xx!"); return op, path
             if op == "badbase64" and last == "value":
                 jset(doc, path, "!!!notbase64!!!"); return op, path
+            if op == "hugeliteral" and last in ("value", "min", "max") and "valueType" in jget(doc, path[:-1]):
+                # out-of-range value of a type whose lexical space is unbounded
+                jget(doc, path[:-1])["valueType"] = "xs:duration"
+                jset(doc, path, rng.choice(HUGE)); return op, path
     return None
 
 
@@ -163,13 +168,16 @@ def classes_along(T, kind, j, path):
 
 
 def root_cause(e: BaseException) -> str:
-    while e.__cause__ is not None:
-        e = e.__cause__
-    n = type(e).__name__
-    for k in DOCUMENTED:
-        if any(c.__name__ == k for c in type(e).__mro__):
-            return k
-    return n
+    """kind of the exception at its origin: the deepest exception of the `raise ... from` chain that is of a documented kind
+    (the readers re-raise with the same kind and more context); an undocumented kind counts only if nothing translated it"""
+    chain = [e]
+    while chain[-1].__cause__ is not None:
+        chain.append(chain[-1].__cause__)
+    for x in reversed(chain):
+        for k in DOCUMENTED:
+            if any(c.__name__ == k for c in type(x).__mro__):
+                return k
+    return type(chain[-1]).__name__
 
 
 def make_doc(seed: int, i: int, depth: int):
@@ -207,6 +215,7 @@ def correspond(ctx: C.Ctx, cov: C.Coverage) -> List[C.Disagreement]:
                 "kind raised at the damaged leaf is the strict reader's root cause. non-trivial = damage at depth >= 1 below the "
                 "identifiable or in a required member; distinct = (class of identifiable, member, operator)")
     depth = 3 if ctx.tier == "quick" else 4
+    undocumented: List[C.Disagreement] = []
     for i in range(n):
         objs, doc = make_doc(ctx.seed, i, depth)
         dmg = damage_json(doc, rng)
@@ -231,6 +240,13 @@ def correspond(ctx: C.Ctx, cov: C.Coverage) -> List[C.Disagreement]:
         except Exception as e:
             k = root_cause(e)
             rcls = raising_class(e)
+        if k is not None and k not in DOCUMENTED:
+            # outside the model's SPEC assumption (`raisable`: conversions raise one of the four documented kinds)
+            undocumented.append(C.Disagreement(f"damaged json document ({op} at {list(path)}): the conversion raises an undocumented kind",
+                                               {"seed": ctx.seed, "index": i, "op": op, "path": list(path), "fmt": "json"},
+                                               "one of " + "/".join(sorted(DOCUMENTED)), k))
+            cov.hit("json:undocumented-kind")
+            continue
         # wire of the damaged document, with the damaged position marked
         def build(mark_path):
             items_ = []
@@ -292,7 +308,7 @@ def correspond(ctx: C.Ctx, cov: C.Coverage) -> List[C.Disagreement]:
             if len(dis) >= 5:
                 break
     cov.samples = [cases[0]] if cases else []
-    return dis
+    return dis + undocumented[:3]
 
 
 LSS_MEMBERS = ("displayName", "description", "preferredName", "shortName", "definition", "value")
@@ -354,6 +370,8 @@ def check_case(case: dict) -> Optional[C.Failing]:
         root, damaged_id, op = damage_xml(objs, rng)
         if root is None:
             return None
+        root, surface = xml_surface(root, rng)
+        op = f"{op}/{surface}"
         data = etree.tostring(root)
         path = []
         from basyx.aas.adapter.xml import read_aas_xml_file
@@ -399,7 +417,21 @@ def objs_id_at(objs, path):
     return same[path[1]].id if path[1] < len(same) else None
 
 
-XML_OPS = ["delete", "emptytext", "badtext", "unknowntag", "toolong", "wronglist"]
+XML_OPS = ["delete", "emptytext", "badtext", "unknowntag", "toolong", "wronglist", "hugeliteral", "toplist", "topunknown", "pi"]
+AASNS = "https://admin-shell.io/aas/3/0"
+
+
+def xml_surface(root, rng: random.Random):
+    """the same infoset in another surface form: the AAS namespace bound as the default namespace or to another prefix"""
+    from lxml import etree
+    how = rng.choice(["aas", "aas", "default", "other"])
+    if how == "aas":
+        return root, how
+    new = etree.Element(root.tag, nsmap={None if how == "default" else "x": AASNS})
+    for ch in list(root):
+        new.append(ch)
+    etree.cleanup_namespaces(new)
+    return etree.fromstring(etree.tostring(new)), how
 
 
 def damage_xml(objs, rng: random.Random):
@@ -415,6 +447,23 @@ def damage_xml(objs, rng: random.Random):
     rng.shuffle(nodes)
     for e in nodes[:40]:
         op = rng.choice(XML_OPS)
+        if op == "pi":
+            # a processing instruction is not damage: everything must come back
+            where = rng.choice([root, target.getparent(), target, e])
+            where.insert(rng.randint(0, len(where)), etree.ProcessingInstruction("vf", "noise"))
+            return root, None, op
+        if op == "toplist":
+            others = [lst for lst in root if lst is not target.getparent()]
+            if others:
+                rng.choice(others).append(target); return root, damaged_id, op
+            continue
+        if op == "topunknown":
+            target.tag = ns + "noSuchIdentifiable"; return root, damaged_id, op
+        if op == "hugeliteral":
+            vt = e.getparent().find(ns + "valueType")
+            if etree.QName(e).localname in ("value", "min", "max") and vt is not None and len(e) == 0:
+                vt.text = "xs:duration"; e.text = rng.choice(HUGE); return root, damaged_id, op
+            continue
         if op == "delete":
             e.getparent().remove(e); return root, damaged_id, op
         if op == "emptytext" and len(e) == 0 and e.text:
